@@ -810,7 +810,11 @@ func (vc *VC) applyContract(fx *FuncCtx, st *State, fc *FuncContract, sig *types
 			vc.specError(st, lbl, r, err)
 			continue
 		}
-		vc.oblige(st, lbl, "call-pre", g, tagsOf(vc.fc), r.Src)
+		ptags := r.Tags
+		if len(ptags) == 0 {
+			ptags = tagsOf(vc.fc)
+		}
+		vc.oblige(st, lbl, "call-pre", g, ptags, r.Src)
 	}
 	pre := st.clone()
 	// results (fresh; locations named in the frame may depend on them, e.g. the typestate of a returned object)
